@@ -32,7 +32,7 @@ def labels_of(ev):
         return ['C14']
     if e in ('TrackerPeers', 'Settle'):
         return ['C19', 'C02', 'C01']
-    if e in ('Connect', 'ConnectDup'):
+    if e in ('Connect', 'ConnectDup', 'ConnectRefused'):
         return ['C08', 'C12']
     if e == 'Disk':
         return ['C01']
@@ -642,7 +642,7 @@ def check_c11(tier, replay=None):
 
 def check_c12(tier, replay=None):
     m = mult(tier)
-    plan = [(G.adversarial, 50 * m, {}), (G.honest, 6 * m, {}), (G.reassign, 30 * m, {}), (G.stale_choke, 10 * m, {}), (G.choke_race, 30 * m, {}), (G.dupaddr, 10 * m, {}), (G.endgame_cancel, 8 * m, {}), (G.nothing_to_assign, 10 * m, {}), (G.choked_delivery, 8 * m, {}), (G.stale_kill, 10 * m, {}), (G.delayed_adversarial, 20 * m, {}), (G.delayed_reassign, 12 * m, {}), ('model', 30 * m, {})]
+    plan = [(G.adversarial, 50 * m, {}), (G.honest, 6 * m, {}), (G.reassign, 30 * m, {}), (G.stale_choke, 10 * m, {}), (G.choke_race, 30 * m, {}), (G.dupaddr, 10 * m, {}), (G.endgame_cancel, 8 * m, {}), (G.nothing_to_assign, 10 * m, {}), (G.choked_delivery, 8 * m, {}), (G.stale_kill, 10 * m, {}), (G.accept_limit, 4 * m, {}), (G.delayed_adversarial, 20 * m, {}), (G.delayed_reassign, 12 * m, {}), ('model', 30 * m, {})]
     return swarm_check('C12', tier, plan, need_actions=('MUnchoke', 'MChoke', 'MPieceDone', 'MKill'), kinds= ['Unchoke', 'Choke', 'Bitfield', 'Piece'] if tier == 'quick' else ['Unchoke', 'Choke', 'Bitfield', 'Piece', 'Have'],
                        design_over=dict(Fuel=3, BFMenu='{{1, 2}}') if tier == 'quick' else dict(Fuel=3, BFMenu='{{1, 2}, {1}}'),   # 2.3 M states, 4 min
                        vacuity={'mgr_events': 500, 'completions': 5}, replay=replay,
